@@ -277,6 +277,11 @@ func classifyCrash(stderr string) (real bool, origin, headline string) {
 			fn, _, _ := strings.Cut(strings.TrimPrefix(l, "WEDGE: "), " ")
 			return true, fn, "LOCK WEDGE"
 		}
+		// ... or running in it for minutes without end
+		if strings.HasPrefix(l, "LIVELOCK: ") {
+			fn, _, _ := strings.Cut(strings.TrimPrefix(l, "LIVELOCK: "), " ")
+			return true, fn, "LIVELOCK"
+		}
 	}
 	start := -1
 	for i, l := range lines {
@@ -546,6 +551,9 @@ func main() {
 				oracle, key := "process_crash", "panic in "+origin
 				if head == "DATA RACE" {
 					oracle, key = "data_race", "race in "+origin
+				}
+				if head == "LIVELOCK" {
+					oracle, key = "process_livelock", "a loop that does not end: "+origin
 				}
 				if head == "LOCK WEDGE" {
 					oracle, key = "process_wedge", "requests wait for a lock that is held across a blocking operation: "+origin
@@ -834,6 +842,20 @@ func crashExcerpt(stderr string) string {
 	i := strings.Index(stderr, "panic: ")
 	if j := strings.Index(stderr, "WARNING: DATA RACE"); j >= 0 && (i < 0 || j < i) {
 		i = j
+	}
+	if j := strings.Index(stderr, "LIVELOCK: "); j >= 0 {
+		var keep []string
+		for _, g := range strings.Split(stderr[j:], "\n\n") {
+			head, _, _ := strings.Cut(g, "\n")
+			if strings.Contains(g, "vipnode/vipnode") && strings.Contains(head, "synctest bubble") && (strings.Contains(head, "[running") || strings.Contains(head, "[runnable")) && len(keep) < 3 {
+				if len(g) > 1500 {
+					g = g[:1500]
+				}
+				keep = append(keep, g)
+			}
+		}
+		l, _, _ := strings.Cut(stderr[j:], "\n")
+		return l + "\n" + strings.Join(keep, "\n\n")
 	}
 	if j := strings.Index(stderr, "WEDGE: "); j >= 0 {
 		// the waiting goroutines and the holder: the blocks of the dump that mention the repository
